@@ -140,6 +140,10 @@ Theorem C01_str_total : forall m w, wf m -> goodw w -> N.of_nat (length w) <= U3
   exists m' t, mstr m w = Some (m', t).
 Proof. exact mstr_total. Qed.
 Print Assumptions C01_str_total.
+(* D11 repaired: the length bound is no longer needed (concat never panics) *)
+Theorem C01_str_total_any_length : forall m w, wf m -> goodw w -> exists m' t, mstr m w = Some (m', t).
+Proof. exact mstr_total_any. Qed.
+Print Assumptions C01_str_total_any_length.
 
 (* ---------------------------------------------------------------- concatenation *)
 
@@ -150,13 +154,30 @@ Theorem C01_concat : forall e1 m e2 m' t,
 Proof. exact concat_ok. Qed.
 Print Assumptions C01_concat.
 
-(* concat panics only when an addition of loop bounds overflows u32 *)
-Theorem C01_concat_panics : forall e1 m e2, wf m -> owned m e1 -> owned m e2 -> concat e1 m e2 = None ->
+(* D11 repaired: concat never panics.  A loop-merging rule (R.R^[i,j], R^[i,j].R, R^[a,b].R^[c,d])
+   applies only when the merged bounds fit in u32; otherwise the match falls through to the later
+   rules (R.R, re-association, nullable.Sigma^*, plain concatenation). *)
+Theorem C01_concat_total : forall e1 m e2, wf m -> owned m e1 -> owned m e2 ->
+  exists m' t, concat e1 m e2 = Some (m', t).
+Proof. exact concat_total. Qed.
+Print Assumptions C01_concat_total.
+(* ... indeed from any manager value and on any two terms *)
+Theorem C01_concat_never_panics : forall e1 m e2, concat e1 m e2 <> None.
+Proof. exact concat_none. Qed.
+Print Assumptions C01_concat_never_panics.
+
+(* what the repair changed: [concat_prefix] is the pre-repair ReManager::concat (rules 5-7 with the
+   panicking LoopRange::add).  It panicked only on an overflowing addition of loop bounds (this was
+   C01_concat_panics), and wherever it returned the repaired concat returns the same manager and term *)
+Theorem C01_concat_prefix_panics : forall e1 m e2, wf m -> owned m e1 -> owned m e2 -> concat_prefix e1 m e2 = None ->
   exists a m1 b, wf m1 /\ ext m m1 /\ owned m1 a /\ owned m1 b /\
     ((exists rng, (rule5 a b = Some rng \/ rule5 b a = Some rng) /\ lr_add_point rng 1 = None) \/
      (exists x xr yr, rule7 a b = Some (x, xr, yr) /\ lr_add xr yr = None)).
-Proof. exact concat_none. Qed.
-Print Assumptions C01_concat_panics.
+Proof. exact concat_prefix_none. Qed.
+Print Assumptions C01_concat_prefix_panics.
+Theorem C01_concat_prefix_agrees : forall e1 m e2 r, concat_prefix e1 m e2 = Some r -> concat e1 m e2 = Some r.
+Proof. exact concat_prefix_agrees. Qed.
+Print Assumptions C01_concat_prefix_agrees.
 
 Theorem C01_concat_list : forall m l m' t,
   wf m -> (forall x, In x l -> owned m x) -> concat_list m l = Some (m', t) ->
@@ -175,11 +196,19 @@ Theorem C01_mk_loop : forall m e range m' t,
 Proof. exact mk_loop_ok. Qed.
 Print Assumptions C01_mk_loop.
 
-Theorem C01_mk_loop_panics : forall m e range, wf m -> mk_loop m e range = None ->
-  exists x xr, rnode e = NLoop x xr /\
-    (lr_rmie xr range = None \/ (lr_rmie xr range = Some true /\ lr_mul xr range = None)).
+(* D11 repaired: mk_loop never panics (loop-of-loop flattening only when neither the exactness test
+   nor the product overflows; otherwise the plain loop node) *)
+Theorem C01_mk_loop_total : forall m e range, wf m -> owned m e -> lr_valid range ->
+  exists m' t, mk_loop m e range = Some (m', t).
+Proof. exact mk_loop_total. Qed.
+Print Assumptions C01_mk_loop_total.
+Theorem C01_mk_loop_never_panics : forall m e range, mk_loop m e range <> None.
 Proof. exact mk_loop_none. Qed.
-Print Assumptions C01_mk_loop_panics.
+Print Assumptions C01_mk_loop_never_panics.
+Theorem C01_mk_loop_prefix_agrees : forall m e range r,
+  mk_loop_prefix m e range = Some r -> mk_loop m e range = Some r.
+Proof. exact mk_loop_prefix_agrees. Qed.
+Print Assumptions C01_mk_loop_prefix_agrees.
 
 Theorem C01_star : forall m e m' t, wf m -> owned m e -> star m e = Some (m', t) ->
   wf m' /\ ext m m' /\ owned m' t /\
@@ -324,15 +353,14 @@ Theorem C01_run_wf : forall p m m' t, wf m -> prog_ok p = true -> run p m = Some
 Proof. exact run_wf. Qed.
 Print Assumptions C01_run_wf.
 
-(* an accepted program panics only when loop-bound arithmetic on terms of a reachable manager
-   overflows u32: an addition in concat, or the exactness test / product in mk_loop *)
-Theorem C01_run_panics : forall p m, wf m -> prog_ok p = true -> run p m = None ->
-  exists m1, wf m1 /\ ext m m1 /\
-   ((exists a b, owned m1 a /\ owned m1 b /\ add_overflow a b) \/
-    (exists e x xr rng, owned m1 e /\ lr_valid rng /\ rnode e = NLoop x xr /\
-       (lr_rmie xr rng = None \/ (lr_rmie xr rng = Some true /\ lr_mul xr rng = None)))).
+(* D11 repaired: an accepted program never panics (the only panics left are the documented asserts
+   of char / range / str on invalid characters, excluded by prog_ok) *)
+Theorem C01_run_total : forall p m, wf m -> prog_ok p = true -> exists m' t, run p m = Some (m', t).
+Proof. exact run_total. Qed.
+Print Assumptions C01_run_total.
+Theorem C01_run_never_panics : forall p m, wf m -> prog_ok p = true -> run p m <> None.
 Proof. exact run_none. Qed.
-Print Assumptions C01_run_panics.
+Print Assumptions C01_run_never_panics.
 
 (* ---------------------------------------------------------------- examples: hypotheses are satisfiable *)
 
@@ -359,14 +387,37 @@ Proof. vm_compute. reflexivity. Qed.
 Example C01_ex_diff_pair :
   ex_view (PDiff (PComp (PRange 97 97)) (PComp (PRange 97 97))) = Some (2, false, 8).
 Proof. vm_compute. reflexivity. Qed.
-(* accepted programs that panic: u32 overflow in mk_loop (product) and in concat (sum) *)
+(* D11 repaired: accepted programs on which the pre-repair code panicked (u32 overflow of the product
+   in mk_loop, of the sum in concat) now return the unmerged node:
+   (Sigma^[4294967295,inf))^[2,2] is a loop of a loop, Sigma^[4294967295,inf) . Sigma^+ and
+   a . a^4294967295 are plain concatenations *)
+Definition ex_shape (p : prog) :=
+  option_map (fun x => match rnode (snd x) with
+                       | NLoop a r => (1, rid a, Some r, 0)
+                       | NConcat a b => (2, rid a, None, rid b)
+                       | _ => (0, 0, None, 0)
+                       end) (run p new_mgr).
 Example C01_ex_overflow_mul :
-  let p := PLoop (PLoop PAllChar 4294967295 None) 2 (Some 2) in prog_ok p = true /\ run p new_mgr = None.
+  let p := PLoop (PLoop PAllChar 4294967295 None) 2 (Some 2) in
+  prog_ok p = true /\ ex_shape p = Some (1, 6, Some (LR 2 (Some 2)), 0).
 Proof. vm_compute. split; reflexivity. Qed.
 Example C01_ex_overflow_add :
   let p := PConcat (PLoop PAllChar 4294967295 None) (PLoop PAllChar 1 None) in
-  prog_ok p = true /\ run p new_mgr = None.
+  prog_ok p = true /\ ex_shape p = Some (2, 6, None, 5).
 Proof. vm_compute. split; reflexivity. Qed.
+Example C01_ex_overflow_succ :
+  let p := PConcat (PRange 97 97) (PLoop (PRange 97 97) 4294967295 (Some 4294967295)) in
+  prog_ok p = true /\ ex_shape p = Some (2, 6, None, 8).
+Proof. vm_compute. split; reflexivity. Qed.
+(* the pre-repair constructors panic on these (None) *)
+Example C01_ex_prefix_panics :
+  let s := mk_node 0 (NRange (0, MAXC)) in
+  let big := mk_node 6 (NLoop s (LR 4294967295 None)) in
+  mk_loop_prefix new_mgr big (LR 2 (Some 2)) = None /\
+  concat_prefix big new_mgr (m_splus new_mgr) = None /\
+  (exists r, mk_loop new_mgr big (LR 2 (Some 2)) = Some r) /\
+  (exists r, concat big new_mgr (m_splus new_mgr) = Some r).
+Proof. vm_compute. repeat split; eexists; reflexivity. Qed.
 (* complement on the fresh manager: comp(empty) is Sigma-star and back *)
 Example C01_ex_complement :
   complement new_mgr (m_empty new_mgr) = Some (m_full new_mgr) /\
@@ -413,6 +464,12 @@ Theorem C01_membership : forall p m m1 t w m2 b, dwf m -> prog_ok p = true -> ru
   goodw w -> str_in_re m1 w t = Some (m2, b) -> (b = true <-> denote p w).
 Proof. exact membership_closed. Qed.
 Print Assumptions C01_membership.
+
+(* D11 repaired: the membership test never panics on a good string *)
+Theorem C01_membership_total : forall m w e, dwf m -> owned m e -> goodw w ->
+  exists m' b, str_in_re m w e = Some (m', b).
+Proof. exact str_in_re_total. Qed.
+Print Assumptions C01_membership_total.
 
 Theorem C01_fresh_manager : dwf new_mgr.
 Proof. exact new_mgr_dwf. Qed.
